@@ -101,7 +101,7 @@ class Unit:
                     self._fnstack.append(key); pushed = True
         if k == 'CXXRecordDecl' and n.get('completeDefinition') and n.get('name'):
             self.records['::'.join(scope + [n['name']])] = n
-        if k == 'VarDecl' and scope and all(s_ for s_ in scope) and n.get('_fnlevel') is None and len(scope) >= 1 and not n.get('_infn'):
+        if k == 'VarDecl' and scope and all(s_ for s_ in scope) and n.get('_fnlevel') is None and len(scope) >= 1 and not n.get('_infn') and not self._fnstack:
             self.globals.setdefault(n.get('name'), n)
         sub = scope
         if k in ('NamespaceDecl', 'CXXRecordDecl', 'ClassTemplateSpecializationDecl') and n.get('name'):
